@@ -106,7 +106,7 @@ pub fn drive_hash(t: &mut Tracer, tier: &str, seed: u64, plan: Option<String>) {
     }
     for i in 0..4 { masters.push((sparse_scalar(&mut rng, i), rng.bytes(4 + i), ["enc", "exch", "sign"][i % 3])); }
     for v in &planv {
-        if v["kind"] == "zerokey" { masters.push((arr(&v["k"]), arr(&v["idb"]), match v["hid"].as_u64().unwrap() { 1 => "sign", 3 => "enc", _ => "exch" })); }
+        if v["kind"] == "zerokey" || v["kind"] == "t2key" { masters.push((arr(&v["k"]), arr(&v["idb"]), match v["hid"].as_u64().unwrap() { 1 => "sign", 3 => "enc", _ => "exch" })); }
     }
     for (k, id, kind) in masters {
         let (k2, id2) = (k.clone(), id.clone());
@@ -468,6 +468,19 @@ pub fn drive_pairing(t: &mut Tracer, tier: &str, seed: u64) {
             t.emit(&sess(), "sm9.pairing", json!({"prop": "C12", "p": g1_json(z), "q": g2_json(&q), "cls": "identity-g1", "out": bytes(&out), "outcome": o.name(), "detail": o.detail()}));
         }
     }
+    // the identity of G2 as second argument ((1,1,0)-style zero, [N]P2, Q - Q): e(P, O) = 1 for every P
+    {
+        let g2 = TwistPoint::g_mul(&[1, 0, 0, 0]);
+        let qk = TwistPoint::g_mul(&u(&scalar(&mut rng)));
+        let zeros: Vec<TwistPoint> = vec![TwistPoint::zero(), g2.point_mul(&u(&nhex)), qk.point_sub(&qk)];
+        for (i, z) in zeros.iter().enumerate() {
+            let p = if i % 2 == 0 { Point::g_mul(&[1, 0, 0, 0]) } else { Point::g_mul(&u(&scalar(&mut rng))) };
+            let zz = *z;
+            let o = guard_plain(|| verif::pairing(&zz, &p));
+            let out = o.ok().cloned().unwrap_or_default();
+            t.emit(&sess(), "sm9.pairing", json!({"prop": "C12", "p": g1_json(&p), "q": g2_json(z), "cls": "identity-g2", "out": bytes(&out), "outcome": o.name(), "detail": o.detail()}));
+        }
+    }
     // bilinearity / order identities evaluated by the library, judged by the specification with G0^(ab)
     let nid = if thorough { 400 } else { 24 };
     for i in 0..nid {
@@ -554,6 +567,20 @@ pub fn drive_arith(t: &mut Tracer, tier: &str, seed: u64) {
         if thorough && i % 5 == 0 { tower(t, sess(), 12, "frob6", a, &vec![0u8; 384], ca); }
         let (b, _) = &e12[(i * 5 + 1) % e12.len()];
         for f in ["add", "sub", "mul"] { tower(t, sess(), 12, f, a, b, ca); }
+    }
+    // Fp12 exponentiation (arbitrary elements, not only GT): small, boundary and sparse exponents (all-zero 64-bit limbs below / between non-zero ones)
+    {
+        let small = |v: i64| be_add_small(&vec![0u8; 32], v);
+        let mut exps: Vec<(Vec<u8>, &'static str)> = vec![(small(0), "e=0"), (small(1), "e=1"), (small(2), "small"), (small(3), "small"), (be_add_small(&hexb(N9_HEX), -2), "e=N-2"), (scalar(&mut rng), "random")];
+        for w in 0..4 { exps.push((sparse_scalar(&mut rng, w), "sparse")); }
+        for (sh, name) in [(8usize, "sparse"), (16, "sparse"), (24, "sparse")] { let mut k = vec![0u8; 32]; k[31 - sh] = 1; exps.push((k, name)); }     // 2^64, 2^128, 2^192
+        for (i, (e, cls)) in exps.iter().enumerate() {
+            let (a, _) = &e12[(i * 3) % e12.len()];
+            let (a2, e2) = (a.clone(), u(e));
+            let o = guard_plain(move || verif::fp12_pow(&a2, &e2));
+            let out = o.ok().cloned().unwrap_or_default();
+            t.emit(&sess(), "gt.pow", json!({"prop": "C13", "base": bytes(a), "e": bytes(e), "cls": format!("fp12.{}", cls), "out": bytes(&out), "outcome": o.name(), "detail": o.detail()}));
+        }
     }
     // arithmetic modulo the group order N
     let npool = field_values(&mut rng, N9_HEX, if thorough { 12 } else { 4 });
